@@ -113,8 +113,83 @@ def _closure(ctx, entries):
                         nm = f.id if isinstance(f, _ast.Name) else getattr(f, "attr", None)
                         if nm in ("item_props", "list_props", "map_props", "stack_props"):
                             clo.add(f"reamber.base.Property.{nm}")
+        # ... and through a generated *setter* only where a reached function assigns such an attribute
+        clo |= _setter_uses(ctx, clo)
         ctx.cache[key] = clo
     return ctx.cache[key]
+
+
+def _deco_name(d):
+    import ast as _ast
+    f = d.func if isinstance(d, _ast.Call) else d
+    return f.id if isinstance(f, _ast.Name) else getattr(f, "attr", None)
+
+
+def _setter_uses(ctx, clo) -> set:
+    """pseudo-nodes `reamber.base.Property.<deco>#setter` for the generated setters that the functions of `clo` use: an
+    attribute store `x.<name> = v` / `x.<name> op= v` whose name is generated by that decorator and whose receiver is (or may
+    be) an object of that family"""
+    import ast as _ast
+    M = ctx.M
+    fam = ctx.cache.get("deps.setter_names")
+    if fam is None:
+        item, lst, mp, stk = set(), set(), set(), set()
+        for c in M.classes:
+            if CTL in c:
+                continue
+            try:
+                k = M.class_kind(c)
+            except Exception:
+                continue
+            try:
+                if k == "item":
+                    item |= set(M.item_fields(c))
+                elif k == "list":
+                    lst |= set(M.list_columns(c))
+                elif k == "chart":
+                    mp |= set(M.map_slots(c))
+                    stk |= set(M.stacker_props(M.stacker_class(c)))
+            except Exception:
+                continue
+        fam = ctx.cache["deps.setter_names"] = dict(item_props=item, list_props=lst, map_props=mp, stack_props=stk)
+    kinds = dict(item_props=("item",), list_props=("list",), map_props=("chart", "mapset"), stack_props=("stacker",))
+    out = set()
+    for q in list(clo):
+        fn = M.funcs.get(q)
+        if fn is None:
+            continue
+        ty = None
+        for n in _ast.walk(fn.node):
+            ts = n.targets if isinstance(n, _ast.Assign) else [n.target] if isinstance(n, (_ast.AugAssign, _ast.AnnAssign)) else []
+            for t in ts:
+                if not isinstance(t, _ast.Attribute):
+                    continue
+                for deco, names in fam.items():
+                    if t.attr not in names or f"reamber.base.Property.{deco}#setter" in out:
+                        continue
+                    if ty is None:
+                        try:
+                            ty = ctx.W.typer(q, None)
+                        except Exception:
+                            ty = False
+                    kk = None
+                    if ty:
+                        try:
+                            kk = ty.kind(t.value)
+                        except Exception:
+                            kk = None
+                    alts = list(kk[1]) if kk and kk[0] == "union" and isinstance(kk[1], tuple) else [kk] if kk else []
+                    clss = [a[1] for a in alts if a and len(a) > 1 and isinstance(a[1], str) and a[1] in M.classes]
+                    cls = clss[0] if clss else None
+                    if cls is not None:
+                        uses = any(_deco_name(d) == deco for c1 in clss for c2 in M.mro(c1) if c2 in M.classes
+                                   for d in M.classes[c2].node.decorator_list)
+                    else:
+                        # receiver not resolved to a repository class: frames, series and scalars are not family objects
+                        uses = kk is None or kk[0] in ("unknown", "top", "?", "any", "obj")
+                    if uses:
+                        out.add(f"reamber.base.Property.{deco}#setter")
+    return out
 
 
 def dep_insts(ctx, pid: str, entries: List[str], skip_groups=()) -> List[R.Inst]:
